@@ -596,6 +596,42 @@ func (a *c13) indexSafe(fn *ssa.Function, x, idx ssa.Value, at ssa.Instruction) 
 			return true, fmt.Sprintf("constant index %d under a dominating length guard", c)
 		}
 	}
+	// the step table indexed by a counter that runs from `current` up to (excluding) `target`: both were validated
+	// by validateVersion before the call (checked by C13-D3), the counter is 1-incremented and tested against target
+	if fn == a.P.Fn("(*configmigrate.Migrator).upgradeConfigSchema") {
+		if _, isArr := derefArray(x.Type()); isArr {
+			if phi, isPhi := idx.(*ssa.Phi); isPhi && len(phi.Edges) == 2 {
+				fromParam, incremented := false, false
+				for _, e := range phi.Edges {
+					if prm, ok := e.(*ssa.Parameter); ok && prm.Name() == "current" {
+						fromParam = true
+					}
+					if bo, ok := e.(*ssa.BinOp); ok && bo.Op == token.ADD && bo.X == ssa.Value(phi) {
+						if k, isC := core.ConstInt(bo.Y); isC && k == 1 {
+							incremented = true
+						}
+					}
+				}
+				g, n := core.CondEdges(fn, func(at core.Atom) (bool, bool) {
+					prm, ok := at.Other.(*ssa.Parameter)
+					if !ok || prm.Name() != "target" || at.Base != ssa.Value(phi) {
+						return false, false
+					}
+					switch at.Op {
+					case token.LSS:
+						return true, true
+					case token.GEQ:
+						return true, false
+					}
+					return false, false
+				})
+				off, _ := core.UnguardedSinks(fn, func(in ssa.Instruction) bool { return in == at }, g)
+				if fromParam && incremented && n > 0 && len(off) == 0 {
+					return true, "counter from current to target (validated by validateVersion before the call, C13-D3)"
+				}
+			}
+		}
+	}
 	return false, fmt.Sprintf("index %s into %s", idx.Name(), x.Name())
 }
 
